@@ -2,6 +2,7 @@
 
 History checker (submitted vs written) + conservation over executions of a real node under the deterministic
 scheduler with partial-write scripts on the substituted socket."""
+import os
 import random
 import time
 
@@ -103,6 +104,8 @@ def execute(acc, case):
                     # the last submitter waits until the library thread of this case stands parked: its messages are then
                     # queued and handed over while that thread is in the middle of whatever line k belongs to
                     sc.sched.block_until(lambda: bool(sc.sched.parked_at), 0.5, "late-submitter")
+                    if os.environ.get("C05_DEBUG"):
+                        print("DEBUG late submitter wakes at", sc.sched.now, "steps", sc.sched.steps, "parked_at", sc.sched.parked_at, [(t.name, t.why) for t in sc.sched.tasks])
                 if batch:
                     sc.node.send_messages([o for _, o in mine])
                 else:
@@ -114,7 +117,9 @@ def execute(acc, case):
                 # source line while the submitters and the other thread go on (hand-over of the next stream, partial writes)
                 who, k = case["park_worker"]
                 who = who if who != "psm" else ("client_psm_thread" if case["role"] == "client" else "server_psm_thread")
-                funcs = {"write", "_write", "read", "_read", "_set_selector_events_mask"} if who == "transport_layer_thread" else \
+                only_write = who == "transport-write"       # a finer sweep: only the lines of write() itself are counted
+                who = "transport_layer_thread" if only_write else who
+                funcs = {"write"} if only_write else {"write", "_write", "read", "_read", "_set_selector_events_mask"} if who == "transport_layer_thread" else \
                         {"send_message_from_queue", "send_message", "event_send_message", "_set_selector_events_mask", "has_send_queue_message"}
                 # only the lines of the functions that move the outgoing stream are counted, so that k sweeps the hand-over itself
                 # (the threads execute thousands of other lines in between)
@@ -178,6 +183,8 @@ def execute(acc, case):
                         "send_log_tail": sc.node_sock.send_log[-12:], "deaths": sc.sched.deaths, "schedule": sc.sched.schedule_hash(),
                         "choices": sc.sched.choices[:3000], "state": sc.state(), "partial_sends": sc.net.partial_sends})
             markers = [s[0] for s in seen]
+            if os.environ.get("C05_DEBUG"):
+                print("DEBUG", {k: wit[k] for k in ("seen_markers", "send_log_tail", "quiescent", "base_messages")}, "now", sc.sched.now, "t_submit", t_submit)
             if sc.sched.deaths:
                 d = sc.sched.deaths[0]
                 acc.violation("task-died:%s:%s" % (d["task"], d["type"]), "task %s died with %s: %s" % (d["task"], d["exc"], d["traceback"][-300:]), wit)
@@ -257,7 +264,7 @@ def plan(tier, seed):
         cases.append({"seed": seed * 100019 + i, "submitters": rng.choice([1, 1, 2, 3, 4]), "per": rng.choice([1, 2, 3, 5, 10, 30]) if not q else rng.choice([1, 2, 3, 5]),
                       "write": rng.choice(writes), "inbound": rng.choice([0, 0, 2, 5]), "strategy": rng.choice(["rr", "rw", "rw"]),
                       "p": rng.choice([0.02, 0.1, 0.3]), "role": rng.choice(["client", "server"]), "batch": rng.random() < 0.3,
-                      "transport": rng.choice(["TCP", "TCP", "TCP", "SCTP"])})
+                      "transport": rng.choice(["TCP", "TCP", "TCP", "SCTP"]), "watchdog": (30, 10 ** 6)[i % 2]})
     for i in range(60 if q else 6000):
         # inbound application answers timed to land right after a partial write
         cases.append({"seed": seed * 9973 + i, "submitters": rng.choice([1, 2, 3]), "per": rng.choice([1, 2, 3, 5]),
@@ -267,12 +274,14 @@ def plan(tier, seed):
     for nth in range(0, 64 if q else 150):
         for w in (["fixed50"] if q else ["full", "fixed7", "zero-window"]):
             cases.append({"seed": seed * 53 + nth, "submitters": 2, "per": 2, "write": w, "inbound": 0, "strategy": "rw", "p": 0.02,
-                          "role": ("client", "server")[nth % 2], "batch": nth % 4 == 3, "park": nth})
-    for who, span in (("transport_layer_thread", 90), ("psm", 90)):
+                          "role": ("client", "server")[nth % 2], "batch": nth % 4 == 3, "park": nth, "watchdog": 10 ** 6})
+    for who, span in (("transport_layer_thread", 90), ("psm", 90), ("transport-write", 45)):
         for k in range(0, span, 1):
-            for w in (["fixed50"] if q else ["full", "fixed7", "zero-window"]):
-                cases.append({"seed": seed * 59 + k, "submitters": 2, "per": 3, "write": w, "inbound": 2 if k % 3 == 0 else 0, "strategy": "rw", "p": 0.02,
-                              "role": ("client", "server")[k % 2], "batch": k % 4 == 1, "park_worker": [who, k]})
+            for w in ((["full", "fixed50"] if k < 50 or who == "transport-write" else ["fixed50"]) if q else ["full", "fixed7", "fixed50", "zero-window"]):
+                cases.append({"seed": seed * 59 + k, "submitters": 2, "per": 3, "write": w, "inbound": 2 if k % 3 == 0 and who != "transport-write" else 0, "strategy": "rw", "p": 0.02,
+                              "role": ("client", "server")[k % 2], "batch": k % 4 == 1, "park_worker": [who, k],
+                              # no watchdog request comes to the rescue of bytes that were handed over and then forgotten
+                              "watchdog": 10 ** 6})
     for i in range(16 if q else 300):
         # a second node object in the same process submits its own messages on its own connection (bvm/twin.py)
         cases.append({"twin": True, "seed": seed * 2741 + i, "strategy": ("rr", "rw")[i % 2], "p": rng.choice([0.02, 0.1]), "submitters": rng.choice([1, 2, 3]),
